@@ -8,7 +8,13 @@ package server
 // After every step it records CmdCount(), lastExecutedSeqNum, the bytes the step appended to the
 // preimage of Hash() (decoded by trying the sub-sequences of the batch against the real digest),
 // the ids left in awaitingCmds and the outcome every waiter got.  Streams: "cio_x" (every trace
-// of length 3 over a small alphabet), "cio_r" (seeded random), "cio_b" (boundary / malformed).
+// of length 3 over a small alphabet), "cio_r" (seeded random), "cio_b" (boundary / malformed),
+// "cio_w" (seeded random over wide values: client ids that agree in their low 8/16/24 bits, id 0,
+// 2^31+1, 2^32-1; sequence numbers around 2^32, 2^63 and 2^64-1 that agree in their low 32 bits).
+// Every trace also checks that Exec/Abort leave the batch they were handed untouched, that the
+// Hash()/CmdCount() accessors are stable, and that a fresh ClientIO given the whole Exec stream as
+// ONE batch ends in the same state.  "conc" (oracle only): registrations through ExecCommand racing
+// with Exec/Abort, clients that register again as soon as they got an outcome.
 // The property's own sentences are evaluated on these Go observations (v.Oracle) and every trace
 // is emitted as a Gallina case for Corr/C06.v (cio_mismatches).
 // Only files are added through `go test -overlay`; nothing in the repository is replaced.
@@ -158,19 +164,7 @@ func c06NewClientIO() *ClientIO {
 
 func c06Explain(pre []byte, batch []c06Cmd, sum []byte, dc int, lastBefore, lastAfter map[uint32]uint64) (subs [][]int) {
 	n := len(batch)
-	if n > 12 {
-		return nil
-	}
-	for mask := 0; mask < 1<<n; mask++ {
-		var idx []int
-		for i := 0; i < n; i++ {
-			if mask&(1<<i) != 0 {
-				idx = append(idx, i)
-			}
-		}
-		if len(idx) != dc {
-			continue
-		}
+	try := func(idx []int) {
 		h := sha256.New()
 		h.Write(pre)
 		last := map[uint32]uint64{}
@@ -182,9 +176,44 @@ func c06Explain(pre []byte, batch []c06Cmd, sum []byte, dc int, lastBefore, last
 			last[batch[i].C] = batch[i].S
 		}
 		if !bytes.Equal(h.Sum(nil), sum) || !reflect.DeepEqual(last, lastAfter) {
-			continue
+			return
 		}
 		subs = append(subs, idx)
+	}
+	if n > 12 {
+		// too many sub-sequences to try: only the one the property's sentences single out (per
+		// client strictly above everything executed so far, in batch order), everything, nothing
+		var greedy, all []int
+		hw := map[uint32]uint64{}
+		has := map[uint32]bool{}
+		for k, x := range lastBefore {
+			hw[k], has[k] = x, true
+		}
+		for i, c := range batch {
+			all = append(all, i)
+			if !has[c.C] || c.S > hw[c.C] {
+				greedy = append(greedy, i)
+				hw[c.C], has[c.C] = c.S, true
+			}
+		}
+		for _, cand := range [][]int{greedy, all, nil} {
+			if len(cand) == dc {
+				try(cand)
+			}
+		}
+		return subs
+	}
+	for mask := 0; mask < 1<<n; mask++ {
+		var idx []int
+		for i := 0; i < n; i++ {
+			if mask&(1<<i) != 0 {
+				idx = append(idx, i)
+			}
+		}
+		if len(idx) != dc {
+			continue
+		}
+		try(idx)
 	}
 	return subs
 }
@@ -275,6 +304,7 @@ func (r *c06Run) trace(stream *verifStream, name string, evs []c06Ev) {
 	fmt.Fprintf(&key, "%v", evs)
 	meta := map[string]any{"stream": name, "trace": evs}
 	sentinel := false
+	var allExec []c06Cmd
 
 	for si, e := range evs {
 		lastBefore := c06CopyLast(srv)
@@ -290,6 +320,8 @@ func (r *c06Run) trace(stream *verifStream, name string, evs []c06Ev) {
 			v.Count("ev:reg")
 		case "exec", "abort":
 			r.step.Store(int64(si))
+			pbBatch := e.batchPB()
+			ptrs := append([]*clientpb.Command{}, pbBatch.GetCommands()...)
 			func() {
 				defer func() {
 					if p := recover(); p != nil {
@@ -300,11 +332,25 @@ func (r *c06Run) trace(stream *verifStream, name string, evs []c06Ev) {
 				// if completeCommand sends to a waiter that is gone this never returns; the
 				// watchdog in runJobs reports it
 				if e.Kind == "exec" {
-					srv.Exec(e.batchPB())
+					srv.Exec(pbBatch)
 				} else {
-					srv.Abort(e.batchPB())
+					srv.Abort(pbBatch)
 				}
 			}()
+			// the batch belongs to the block (it is handed to other handlers and hashed): untouched
+			same := len(pbBatch.GetCommands()) == len(ptrs)
+			for i := 0; same && i < len(ptrs); i++ {
+				c := pbBatch.GetCommands()[i]
+				same = c == ptrs[i] && c.ClientID == e.Batch[i].C && c.SequenceNumber == e.Batch[i].S && bytes.Equal(c.Data, e.Batch[i].D)
+			}
+			if !same {
+				// not forbidden by the property (every replica filters a block in the same state), so
+				// only counted: the batch belongs to the block and is hashed / handed to other handlers
+				v.Count("note:" + e.Kind + "-changed-the-batch-it-was-handed")
+			}
+			if e.Kind == "exec" {
+				allExec = append(allExec, e.Batch...)
+			}
 			if e.Kind == "exec" {
 				gev = "(CExec " + c06BatchG(e.Batch) + ")"
 			} else {
@@ -317,6 +363,8 @@ func (r *c06Run) trace(stream *verifStream, name string, evs []c06Ev) {
 		count := srv.CmdCount()
 		lastAfter := c06CopyLast(srv)
 		sum := srv.Hash().Sum(nil)
+		v.Oracle(bytes.Equal(sum, srv.Hash().Sum(nil)) && count == srv.CmdCount(), "clientio.hash:accessor-not-stable",
+			fmt.Sprintf("step %d: Hash().Sum / CmdCount() queried twice in a row differ", si), meta)
 		dc := int(count - countBefore)
 		if e.Kind == "exec" {
 			subs := c06Explain(pre, e.Batch, sum, dc, lastBefore, lastAfter)
@@ -453,13 +501,10 @@ func (r *c06Run) trace(stream *verifStream, name string, evs []c06Ev) {
 				fmt.Sprintf("step %d (%s): waiter %d for %v got an outcome although its command is not in the batch", si, e.Kind, w.tok, w.id), meta)
 			// success_after_exec
 			if w.err == nil {
-				okS := e.Kind == "exec" && executed[w.id] > 0 && func() bool {
-					// executed in this very step: not a duplicate before it
-					seq, had := lastBefore[w.id.ClientID]
-					return !had || seq < w.id.SequenceNumber
-				}()
-				v.Oracle(okS, "clientio.outcome:success-without-execution",
-					fmt.Sprintf("step %d (%s): waiter %d for %v got a nil error but the command was not executed in this step", si, e.Kind, w.tok, w.id), meta)
+				// the property's sentence: success only after the command was executed here (the model,
+				// like the code, is stricter: only in the very step that executed it)
+				v.Oracle(executed[w.id] > 0, "clientio.outcome:success-without-execution",
+					fmt.Sprintf("step %d (%s): waiter %d for %v got a nil error but the command has not been executed", si, e.Kind, w.tok, w.id), meta)
 			}
 			if current[w.id] == w {
 				delete(current, w.id)
@@ -490,6 +535,15 @@ func (r *c06Run) trace(stream *verifStream, name string, evs []c06Ev) {
 		default:
 		}
 	}
+	one := c06NewClientIO()
+	ob := &clientpb.Batch{}
+	for _, c := range allExec {
+		ob.Commands = append(ob.Commands, c.pb())
+	}
+	one.Exec(ob)
+	v.Oracle(one.CmdCount() == srv.CmdCount() && bytes.Equal(one.Hash().Sum(nil), srv.Hash().Sum(nil)),
+		"clientio.digest:depends-on-batch-boundaries",
+		fmt.Sprintf("a second ClientIO given the whole Exec stream (%d commands) as one batch has another count/digest", len(allExec)), meta)
 	v.Oracle(bytes.Equal(srv.Hash().Sum(nil), sha256sum(pre)), "clientio.digest:final", "final Hash() is not the digest of the decoded executed payloads", meta)
 	fin := c06BytesG(pre)
 	if sentinel {
@@ -500,6 +554,153 @@ func (r *c06Run) trace(stream *verifStream, name string, evs []c06Ev) {
 }
 
 func sha256sum(b []byte) []byte { s := sha256.Sum256(b); return s[:] }
+
+// ---------------------------------------------------------------------------------------------
+// concurrency: clients register through ExecCommand from their own goroutines while the committer's
+// goroutine runs Exec / Abort; a client that got an outcome registers the same command again at
+// once (a retransmission racing with the batch still being processed).  Nothing here is compared
+// with the model (the interleaving is not observed); the property's sentences must hold anyway:
+// registrations never change the application state, success only for a command of an Exec batch,
+// nobody waits forever once the command was aborted, nothing deadlocks (and no data race when the
+// thorough tier runs with -race).
+
+func (r *c06Run) concurrent(trial int) {
+	v := r.v
+	rng := rand.New(rand.NewSource(v.seed*7919 + int64(trial)))
+	srv, ref := c06NewClientIO(), c06NewClientIO()
+	nClients := 2 + rng.Intn(2)
+	var cmds []c06Cmd
+	for c := 1; c <= nClients; c++ {
+		for s := 1; s <= 2+rng.Intn(3); s++ {
+			cmds = append(cmds, c06Mk(uint32(c), uint64(s)))
+		}
+	}
+	// the committed stream: every command once in order per client, plus repeats and aborts
+	type step struct {
+		abort bool
+		batch []c06Cmd
+	}
+	var steps []step
+	inExec := map[clientpb.MessageID]bool{}
+	for i := 0; i < len(cmds); {
+		n := 1 + rng.Intn(3)
+		var b []c06Cmd
+		for ; n > 0 && i < len(cmds); n-- {
+			if rng.Intn(100) < 80 {
+				b = append(b, cmds[i])
+				inExec[cmds[i].pb().ID()] = true
+			}
+			i++
+			if rng.Intn(100) < 30 {
+				rep := cmds[rng.Intn(i)] // a repeat of something earlier
+				b = append(b, rep)
+				inExec[rep.pb().ID()] = true
+			}
+		}
+		steps = append(steps, step{rng.Intn(100) < 20, b})
+	}
+	meta := map[string]any{"stream": "conc", "trial": trial, "seed": v.seed, "steps": steps}
+	type result struct {
+		id  clientpb.MessageID
+		err error
+	}
+	results := make(chan result, 1024)
+	var wg sync.WaitGroup
+	var registered atomic.Int64
+	for _, c := range cmds {
+		if rng.Intn(100) < 75 {
+			again := rng.Intn(100) < 50
+			wg.Add(1)
+			go func(c c06Cmd) {
+				defer wg.Done()
+				for round := 0; round < 2; round++ {
+					mu := &sync.Mutex{}
+					mu.Lock()
+					ctx, ok := c06ServerCtx(mu)
+					if !ok {
+						return
+					}
+					registered.Add(1)
+					_, err := srv.ExecCommand(ctx, c.pb())
+					results <- result{c.pb().ID(), err}
+					if !again {
+						return
+					}
+				}
+			}(c)
+		}
+	}
+	finished := make(chan struct{})
+	go func() {
+		for _, st := range steps {
+			b := &clientpb.Batch{}
+			for _, c := range st.batch {
+				b.Commands = append(b.Commands, c.pb())
+			}
+			if st.abort {
+				srv.Abort(b)
+			} else {
+				srv.Exec(b)
+				ref.Exec(b)
+			}
+			if rng.Intn(2) == 0 {
+				time.Sleep(time.Duration(rng.Intn(50)) * time.Microsecond)
+			}
+		}
+		// everything that is still waiting belongs to a fork now: abort until all clients are back
+		all := &clientpb.Batch{}
+		for _, c := range cmds {
+			all.Commands = append(all.Commands, c.pb())
+		}
+		done := make(chan struct{})
+		go func() { wg.Wait(); close(done) }()
+		for {
+			srv.Abort(all)
+			select {
+			case <-done:
+				close(finished)
+				return
+			case <-time.After(200 * time.Microsecond):
+			}
+		}
+	}()
+	select {
+	case <-finished:
+	case <-time.After(10 * time.Second):
+		r.blocked++
+		v.Oracle(false, "clientio.concurrent:deadlock", "registrations racing with Exec/Abort did not finish within 10s", meta)
+		return
+	}
+	close(results)
+	succ := map[clientpb.MessageID]int{}
+	for res := range results {
+		if res.err == nil {
+			succ[res.id]++
+		}
+	}
+	okExec := true
+	for id, n := range succ {
+		if n > 1 {
+			v.Count("note:conc-two-waiters-of-one-command-acknowledged")
+		}
+		if !inExec[id] {
+			okExec = false
+		}
+	}
+	v.Oracle(okExec, "clientio.outcome:success-without-execution", "a command that was in no Exec batch was acknowledged with nil", meta)
+	v.Oracle(srv.CmdCount() == ref.CmdCount() && bytes.Equal(srv.Hash().Sum(nil), ref.Hash().Sum(nil)),
+		"clientio.concurrent:registrations-changed-application-state",
+		fmt.Sprintf("count %d vs %d for the same Exec stream without clients", srv.CmdCount(), ref.CmdCount()), meta)
+	srv.mut.Lock()
+	left := len(srv.awaitingCmds)
+	srv.mut.Unlock()
+	if left != 0 {
+		v.Count("note:conc-entries-left-in-awaitingCmds")
+	}
+	v.Count("conc:trial")
+	v.CountN("conc:registrations", int(registered.Load()))
+	v.Seen(fmt.Sprintf("conc-%d-%d", v.seed, trial), len(succ) > 0, nil)
+}
 
 // ---------------------------------------------------------------------------------------------
 // generators
@@ -533,12 +734,23 @@ func c06Alphabet(ids []c06Cmd, maxBatch int) []c06Ev {
 	return evs
 }
 
+var c06WideClients = []uint32{0, 1, 257, 65537, 1<<24 + 1, 1<<31 + 1, 1<<32 - 1, 256, 1 << 16}
+var c06WideSeqs = []uint64{0, 1, 2, 1 << 32, 1<<32 + 1, 1<<32 + 2, 1 << 63, 1<<63 + 1, 1<<64 - 2, 1<<64 - 1}
+
+// c06WideCmd draws from ids / sequence numbers that collide when truncated; the payload is the pair
+// of table indices, so it stays a function of (client, seq).
+func c06WideCmd(rng *rand.Rand) c06Cmd {
+	// two or three clients per trace would be too sparse over 9 ids: bias towards the ones ≡ 1 mod 256
+	ci := rng.Intn(len(c06WideClients))
+	if rng.Intn(100) < 60 {
+		ci = 1 + rng.Intn(5)
+	}
+	si := rng.Intn(len(c06WideSeqs))
+	return c06Cmd{C: c06WideClients[ci], S: c06WideSeqs[si], D: []byte{byte(ci), byte(si)}}
+}
+
 func c06RandomTrace(rng *rand.Rand, clients, seqs, maxLen, maxBatch int, varData bool) []c06Ev {
-	n := 1 + rng.Intn(maxLen)
-	var evs []c06Ev
-	// commands seen so far, so that later batches repeat / reorder earlier ones
-	var pool []c06Cmd
-	fresh := func() c06Cmd {
+	return c06RandomTraceOf(rng, maxLen, maxBatch, func() c06Cmd {
 		c := c06Mk(uint32(1+rng.Intn(clients)), uint64(rng.Intn(seqs)))
 		if varData {
 			c.D = make([]byte, rng.Intn(4))
@@ -547,7 +759,16 @@ func c06RandomTrace(rng *rand.Rand, clients, seqs, maxLen, maxBatch int, varData
 			}
 		}
 		return c
-	}
+	})
+}
+
+func c06RandomTraceOf(rng *rand.Rand, maxLen, maxBatch int, fresh0 func() c06Cmd) []c06Ev {
+	large := maxBatch == 5 // the cio_r / cio_w streams
+	n := 1 + rng.Intn(maxLen)
+	var evs []c06Ev
+	// commands seen so far, so that later batches repeat / reorder earlier ones
+	var pool []c06Cmd
+	fresh := fresh0
 	pick := func() c06Cmd {
 		if len(pool) > 0 && rng.Intn(100) < 45 {
 			return pool[rng.Intn(len(pool))]
@@ -561,7 +782,11 @@ func c06RandomTrace(rng *rand.Rand, clients, seqs, maxLen, maxBatch int, varData
 		case x < 35:
 			evs = append(evs, c06Ev{Kind: "reg", Cmd: pick()})
 		case x < 85:
-			b := make([]c06Cmd, rng.Intn(maxBatch+1))
+			nb := rng.Intn(maxBatch + 1)
+			if large && rng.Intn(100) < 6 {
+				nb = 13 + rng.Intn(28) // a realistic batch size: more commands than the small scope has
+			}
+			b := make([]c06Cmd, nb)
 			for j := range b {
 				b[j] = pick()
 			}
@@ -618,7 +843,7 @@ func TestVerifC06(t *testing.T) {
 	v := verifNew("C06")
 	r := &c06Run{v: v}
 	defer func() {
-		v.Close("server.ClientIO: every trace of 3 operations over {register, Exec, Abort} x batches of <=2 of 3 commands; seeded random traces (<=12 steps, batches <=5, 4 clients, 6 sequence numbers, 45% repeats); boundary traces (nil/empty batches, seq 0 / 2^64-1, client 2^32-1, empty payloads, id/payload clashes, orphaned waiters)")
+		v.Close("server.ClientIO: every trace of 3 operations over {register, Exec, Abort} x batches of <=2 of 3 commands; seeded random traces (<=12 steps, batches <=5, 4 clients, 6 sequence numbers, 45% repeats); boundary traces (nil/empty batches, seq 0 / 2^64-1, client 2^32-1, empty payloads, id/payload clashes, orphaned waiters); wide-value traces (client ids equal mod 2^8/2^16/2^24, 0, 2^31+1, 2^32-1; sequence numbers equal mod 2^32, 2^63, 2^64-1); per trace: batch untouched, accessors stable, one-command and one-batch re-chunkings agree; concurrent registration/re-registration against Exec/Abort (oracle only)")
 	}()
 
 	// exhaustive small scope
@@ -672,6 +897,17 @@ func TestVerifC06(t *testing.T) {
 		}
 		return c06Job{bs, "cio_b", c06RandomTrace(v.rng, 2, 3, 10, 6, true)}, m <= len(bt)+v.Pick(1000, 10000)
 	})
+	// wide values
+	ws := v.Stream("cio_w", "cio_mismatches", 1000)
+	k := 0
+	r.runJobs(func() (c06Job, bool) {
+		k++
+		return c06Job{ws, "cio_w", c06RandomTraceOf(v.rng, 12, 5, func() c06Cmd { return c06WideCmd(v.rng) })}, k <= v.Pick(2500, 30000)
+	})
+	// concurrency (oracle only)
+	for i := 0; i < v.Pick(150, 3000) && r.blocked < 3; i++ {
+		r.concurrent(i)
+	}
 	if !c06CtxOK {
 		v.Note("gorums.ServerCtx could not be built by reflection; waiters were registered by writing awaitingCmds directly")
 	}
